@@ -415,3 +415,5 @@ def seq_of(n, f):
 
 def arr_of(seq):
     return seq
+
+MINMAX_EXT_IMP = _lemma_rt
